@@ -56,6 +56,10 @@ MUTANTS = [
      '    if (prop)\n        return *prop;\n    bool shared = !_name.empty();',
      '    bool shared = !_name.empty();',
      'request_property always creates a new property (never returns the existing one)'),
+    ('M10', 'C13', 'topology-only', 'plain', RM,
+     '    if (this == &other) return *this;\n',
+     '\n',
+     'ResourceManager::operator= without its self-assignment guard (shows only on topology-only meshes)'),
 ]
 
 
